@@ -18,7 +18,8 @@ CLAIMED = {
   "C01": C("exploration", "3 C01", "deterministic simulation: seeded histories vs. reference map, short-I/O + EINTR noise",
       "Seeded search over sequential histories (8 key types, all chunkings, both sync modes, all segment sizes) executed against the real store through the libc seam, compared call by call with a BTreeMap reference model and audited (iter/range/len/contains/known_blobs/stats/files) every few steps; one third of runs add short reads/writes and EINTR which must be invisible."),
   "C02": C("exploration", "3 C02", "deterministic simulation: restart placement at WAL segment boundaries, before/after observation equality",
-      "Histories with clean restarts and checkpoints placed preferentially at version mod N in {0,1,N-1}, repeated restarts, N=1; the full observable state before drop, after open and in the model must agree; C20 monitors watch versions/segments across restarts."),
+      "Histories with clean restarts and checkpoints placed preferentially at version mod N in {0,1,N-1}, repeated restarts, N=1; the full observable state before drop, after open and in the model must agree; C20 monitors watch versions/segments across restarts. Concurrent part: at the end of every error-free seeded schedule of writer programs with explicit and roll-over checkpoints, snapshot+log decoded independently must equal the index the API shows (a restart would change nothing).",
+      SEQ_NOTE + " Concurrent part: " + CONC_NOTE, "casim-seq"),
   "C03": C("fault_enumeration", "3 C03", "deterministic simulation: process-kill cut at every mutating-call boundary, recovery by the real code, nested cuts",
       "For each sampled history every boundary between mutating libc calls (incl. first-time initialisation, checkpoints, roll-over, drop) is a kill point; SimDisk materialises the image, the real open_with_recover recovers it and the result must be M_{i-1} or M_i with no missing/corrupted blob; each recovery's own trace is cut again; sampled images continue with clean-up and a usability suffix."),
   "C04": C("exploration", "3 C04", "deterministic simulation: seeded schedules of writer programs, no-dangling monitor at every step",
@@ -64,7 +65,8 @@ CLAIMED = {
       "Opens with a different num_ops_per_wal, a forged stored version, or a flipped pre-create choice at random positions of populated histories; rejected opens must leave SimDisk byte-identical and issue no mutating call but opening LOCK; the next correct open shows the model. A run class kills first-time initialisation with pre_create_cas_dirs inside the 65 792 mkdirs and then uses the recovered store. Concurrent part: tasks race first opens of a fresh directory with different segment sizes; only the value of the first successful open is accepted afterwards.",
       SEQ_NOTE + " Concurrent part: " + CONC_NOTE, "casim-seq"),
   "C20": C("exploration", "3 C20", "deterministic simulation: on-disk well-formedness monitor with an independent decoder after every mutating call",
-      "After every mutating call that touches the snapshot or a segment, in plain histories, restarts and crash-image recoveries: complete checksummed records, at most one trailing end marker, strictly increasing versions within segment ranges, never reused across restarts, snapshot decodable and monotone, snapshot+log equal to the acknowledged or in-flight state."),
+      "After every mutating call that touches the snapshot or a segment, in plain histories, restarts and crash-image recoveries: complete checksummed records, at most one trailing end marker, strictly increasing versions within segment ranges, never reused across restarts, snapshot decodable and monotone, snapshot+log equal to the acknowledged or in-flight state. A fault-injecting run class (one failed call) keeps the monitors on. Concurrent part: the same monitors at every step of seeded schedules of writer programs with checkpoints, and at quiescence snapshot+log decoded independently == the index the API shows.",
+      SEQ_NOTE + " Concurrent part: " + CONC_NOTE, "casim-seq"),
 }
 
 NOT_YET = {
